@@ -472,3 +472,93 @@ func scenarioMembership(o *common.Opts, idx int, st *stats) string {
 	st.scenarios++
 	return ""
 }
+
+// scenarioDeposedTail (C08, C07): the leader is cut off from both peers while its clients keep sending, so it appends
+// and persists entries that are never replicated. The other two elect a leader and acknowledge writes at the same log
+// indexes. The link is restored: the old leader has to replace its tail (two or more entries) by the acknowledged
+// ones, in memory and on disk. It is then killed and restarted (twice), so what it holds comes from its files only;
+// finally every node is killed and the old leader comes back first. Every acknowledged write must be on every node
+// and the replicas must agree.
+func scenarioDeposedTail(o *common.Opts, idx int, st *stats, tag string) string {
+	dir := filepath.Join(o.Work, fmt.Sprintf("tail-%s-%d", tag, idx))
+	c, err := cluster.New(dir, 3, false, nil)
+	if err != nil {
+		return err.Error()
+	}
+	defer c.Stop()
+	if !*fKeep {
+		defer os.RemoveAll(dir)
+	}
+	if err := c.StartAll(); err != nil {
+		return "start: " + err.Error()
+	}
+	if !c.WaitAllWritable(90 * time.Second) {
+		return "cluster did not become writable"
+	}
+	r := rand.New(rand.NewSource(o.Seed*86028121 + int64(idx)))
+	w := newWorkload(c)
+	w.rate = 200
+	w.retry = 5 * time.Millisecond // retired clients are replaced at once: the cut-off leader keeps getting proposals
+	w.simple = true
+	wg := w.run(2, o.Seed*104729+int64(idx))
+	time.Sleep(time.Duration(1200+r.Intn(800)) * time.Millisecond)
+	lead := currentLeader(c)
+	if lead == 0 {
+		atomic.StoreInt32(&w.stop, 1)
+		wg.Wait()
+		return "cluster did not become writable"
+	}
+	c.Partition([]int{lead})
+	st.nemesis++
+	st.kinds["isolate-leader-under-load"]++
+	// long enough for the other two to elect (1 s election timeout, randomised) and to acknowledge writes
+	time.Sleep(time.Duration(4500+r.Intn(2000)) * time.Millisecond)
+	c.Heal()
+	st.nemesis++
+	// the old leader learns the new term and replaces its tail
+	time.Sleep(time.Duration(2000+r.Intn(1000)) * time.Millisecond)
+	for k := 0; k < 2; k++ {
+		c.Kill(lead)
+		time.Sleep(time.Duration(50+r.Intn(200)) * time.Millisecond)
+		if err := c.StartNode(lead); err != nil {
+			report(witness{Kind: "restart-failed", Detail: fmt.Sprintf("%s: the former leader (node %d) does not restart after kill -9: %v\n%s", tag, lead, err, tailN(c.NodeLog(lead, 6000), 2500)), Sig: "node-does-not-restart|" + tag + "|" + crashClass(c.NodeLog(lead, 8000))})
+			atomic.StoreInt32(&w.stop, 1)
+			wg.Wait()
+			return ""
+		}
+		st.restarts++
+		st.kinds["kill-restart"]++
+		time.Sleep(time.Duration(1500+r.Intn(500)) * time.Millisecond)
+	}
+	atomic.StoreInt32(&w.stop, 1)
+	wg.Wait()
+	st.open += int(w.timeouts)
+	// everything down; the former leader first, then one more node: the two of them serve from their own files
+	for _, nd := range c.Nodes {
+		nd.Srv.Signal(syscall.SIGKILL)
+	}
+	for _, nd := range c.Nodes {
+		c.Kill(nd.ID)
+	}
+	second := 1 + (lead % 3)
+	for _, id := range []int{lead, second} {
+		if err := c.StartNode(id); err != nil {
+			report(witness{Kind: "restart-failed", Detail: fmt.Sprintf("%s: node %d does not start from its own files after the crash: %v\n%s", tag, id, err, tailN(c.NodeLog(id, 6000), 2500)), Sig: "node-does-not-restart|" + tag + "|" + crashClass(c.NodeLog(id, 8000))})
+			return ""
+		}
+		st.restarts++
+	}
+	st.kinds["kill-all-former-leader-first"]++
+	ok, why := quiesce(c, w.led, tag, 240*time.Second)
+	checkElectionLog(c, st, tag)
+	if !ok && why == "cluster did not serve writes within the bound" {
+		if len(bySigSnapshot()) > 0 {
+			return ""
+		}
+		return why + clusterDiag(c)
+	}
+	checkLinearizable(w, st, tag)
+	st.ops += 0
+	st.scenarios++
+	return ""
+}
